@@ -110,7 +110,22 @@ func oneHistory(src *source, boot bool, emit func(string)) {
 		if !ok {
 			break
 		}
-		if e.peer() {
+		if e.tok[0] == 'W' {
+			// composite event: W<hold>^<application event>^<peer message>: the application event runs with the
+			// hold in force, the peer message is delivered meanwhile, then the hold is lifted
+			parts := strings.SplitN(e.tok[1:], "^", 3)
+			e2 := parseEvt(parts[2])
+			emit("E W" + parts[0] + "^" + parts[1] + "^" + e2.tok + "#" + Hx(e2.bytes))
+			done := w.openWindow(parts[0])
+			w.doApp(parts[1])
+			w.settle()
+			select {
+			case w.x.in <- e2.bytes:
+			default:
+			}
+			w.settle()
+			done()
+		} else if e.peer() {
 			emit("E " + e.tok + "#" + Hx(e.bytes))
 			v := w.conn.VerifView()
 			if v.MuFree && !v.ShuttingDown {
@@ -131,7 +146,9 @@ func oneHistory(src *source, boot bool, emit func(string)) {
 		}
 		msgs, obs := w.observe()
 		deliv := strings.Split(obs, "~")[1]
-		src.k.observe(e, msgs, deliv)
+		if e.tok[0] != 'W' {
+			src.k.observe(e, msgs, deliv)
+		}
 		emit("O " + obs)
 	}
 	emit("X " + w.finish())
